@@ -403,7 +403,7 @@ Register(c, k) ==
 
 \* add_destinations(*S): the first call drains the buffer into exactly these destinations
 AddDests(c, S) ==
-  /\ Idle /\ born[c] /\ S # {} /\ S \cap Range(dests) = {}
+  /\ Idle /\ born[c] /\ S \cap Range(dests) = {}          \* S may be empty: add_destinations() with no destination still ends buffering
   /\ IF anyAdded THEN /\ dests' = dests \o SeqOfSet(S) /\ UNCHANGED <<anyAdded, work>>
      ELSE /\ dests' = SeqOfSet(S) /\ anyAdded' = TRUE
           /\ work' = <<[t |-> "redeliver", j |-> 1]>>
